@@ -354,3 +354,19 @@ mod tests {
     #[derive(Serialize, Deserialize, Component)]
     struct ComponentB;
 }
+
+#[cfg(replicon_verif)]
+impl RemovalBuffer {
+    /// Returns buffered removals as `(entity, function ids)`.
+    pub(super) fn verif_snapshot(&self) -> Vec<(Entity, Vec<usize>)> {
+        self.removals
+            .iter()
+            .map(|(&entity, ids)| {
+                (
+                    entity,
+                    ids.iter().map(|&(_, fns_id)| fns_id.verif_index()).collect(),
+                )
+            })
+            .collect()
+    }
+}
